@@ -35,6 +35,16 @@ pub struct Scale {
 }
 
 impl Scale {
+    /// Absolute tolerance factor: the design's 64 for series of up to 64 steps; for longer series the sound
+    /// worst-case bound of a recursive f32 sum, one rounding per term ((n-1)*eps/2 on each side), is used:
+    /// two annual sums over n steps whose terms differ in the last bit can differ by up to n*eps*S.
+    pub fn c_abs(&self) -> f64 {
+        C_ABS.max(self.e_t.len() as f64)
+    }
+    /// The same scaling for ratios.
+    pub fn k_long(&self) -> f64 {
+        self.c_abs() / C_ABS
+    }
     pub fn of(b: &Building, area: f64) -> Scale {
         let (e_an, e_t) = b.energy_scale();
         let n_an = b
@@ -143,7 +153,7 @@ pub fn compare(a: &Flat, b: &Flat, sc: &Scale, slack_abs: f64, slack_step: f64) 
         } else {
             0.0
         };
-        let tol = C_ABS * EPS * s + slack + by_srv_extra;
+        let tol = sc.c_abs() * EPS * s + slack + by_srv_extra;
         if s > 0.0 && cls != Cls::Unit {
             let noise = d / (EPS * s);
             if noise > rep.max_noise && d <= tol {
@@ -166,7 +176,7 @@ pub fn compare(a: &Flat, b: &Flat, sc: &Scale, slack_abs: f64, slack_step: f64) 
             continue;
         }
         rep.compared += 1;
-        let tol = ratio_tol(s, den, ra.abs().max(rb.abs()), slack_abs * f);
+        let tol = sc.k_long() * ratio_tol(s, den, ra.abs().max(rb.abs()), slack_abs * f);
         if (ra - rb).abs() > tol {
             rep.mismatches.push(format!("{}: {} vs {} (tol {:e})", name, ra, rb, tol));
         }
@@ -176,7 +186,7 @@ pub fn compare(a: &Flat, b: &Flat, sc: &Scale, slack_abs: f64, slack_step: f64) 
     let fb = b.misc.get("fraccion_renovable_demanda_acs_nrb");
     let ea = a.misc.contains_key("error_acs");
     let eb = b.misc.contains_key("error_acs");
-    let fragile = |m: Option<f64>| m.map(|d| d <= C_ABS * EPS * sc.e_an + slack_abs + 1e-9).unwrap_or(false);
+    let fragile = |m: Option<f64>| m.map(|d| d <= sc.c_abs() * EPS * sc.e_an + slack_abs + 1e-9).unwrap_or(false);
     if fragile(a.dhw_threshold_margin) || fragile(b.dhw_threshold_margin) {
         rep.skipped_ratios += 1;
     } else {
@@ -188,7 +198,7 @@ pub fn compare(a: &Flat, b: &Flat, sc: &Scale, slack_abs: f64, slack_step: f64) 
                     let dem = a.dhw_demand.unwrap_or(0.0).abs().min(b.dhw_demand.unwrap_or(0.0).abs());
                     if dem > RATIO_MIN_DEN * sc.e_an.max(1e-30) * 1e-3 && dem > 0.0 {
                         // d(Q/dem) = dQ/dem + (Q/dem) * d(dem)/dem
-                        let tol = 0.0011 + C_RATIO * EPS * sc.e_an / dem + slack_abs * 4.0 / dem + 2.0 * x.abs().max(y.abs()) * slack_abs / dem;
+                        let tol = 0.0011 + sc.k_long() * C_RATIO * EPS * sc.e_an / dem + slack_abs * 4.0 / dem + 2.0 * x.abs().max(y.abs()) * slack_abs / dem;
                         rep.compared += 1;
                         if (x - y).abs() > tol {
                             rep.mismatches.push(format!("DHW fraction: {} vs {} (tol {:e})", x, y, tol));
